@@ -3,7 +3,7 @@ import os, re, resource, signal
 from .. import bb, chain as K, gen_chain as GC, common as C
 
 NAMESPACE = "Rbp.Props.C10"
-REQUIRED = ["exit0_complete_fault_no_final", "no_partial_final_at_any_instant", "exit0_complete_fault_no_final_n", "no_partial_final_at_any_instant_n", "csvdump_disk_is_model_files"]
+REQUIRED = ["exit0_complete_fault_no_final", "no_partial_final_at_any_instant", "exit0_complete_fault_no_final_n", "no_partial_final_at_any_instant_n", "csvdump_disk_is_model_files", "nonzero_exit_no_final_files", "exit0_output_is_callback_over_delivered", "exit0_files_are_all_delivered_rows"]
 LEAN_FILES = ["Rbp/Model/Output.lean", "Rbp/Model/Run.lean"]
 RULE = ("(i) syscall traces (strace -f, openat/write/rename/close) of the three file-producing callbacks: per dump file the sequence create -> write sizes -> rename is compared with the model's output-file machine "
         "(BufWriter capacity rule, explicit flush, rename, drop) and `no write to a file after its rename` is checked on the real trace; (ii) write faults: strace -P <tmp file> inject=write:error=ENOSPC:when=K+ for every dump file x every K "
